@@ -7,7 +7,7 @@ serialises both predictions per input together with the predicted cause of any d
 (ii) explores the transcribed transformations (trash, split, junk, flatten, hardening) on a
 subset of the shapes and checks SameAsLowered / SameTrace / TrashNeverRuns / JunkIsPureJump /
 PhiEdgesMatchPreds / DispatchReachesTarget / KeysDistinctNonZero; (iii) with block_splits and
-trash_blocks combined it is EXPECTED to find a counterexample (lead for F14).
+trash_blocks combined it is EXPECTED to find a counterexample (lead for F110).
 
 Binding (B2, behaviour replay): every shape has a Go template generated from the same
 parameters; the real go/ssa CFG of the template is compared with the model's skeleton, the
@@ -57,6 +57,7 @@ def param_sets(tier):
     ]
 
 
+GENERIC_TAGS = ("generic-directive", "generic-method")
 SMALL_SHAPES = ["while-y-x-x", "while-t-y-x", "dowhile-t-y-x", "dowhile-t-y-t", "dowhile-y-x-t", "ifmerge-u-v-m", "loopif-x-y-x", "loopbreak-x-y-x"]
 
 SPLIT_SETS = [
@@ -150,7 +151,7 @@ def judge_lib(ctx, chk, ref_res, obf_res, kw_for, how, files, tags):
             as_pred = True
         if tag == "defer-modifies-named-result" and obf.get(tag) == [F2B_EXPECTED_WRONG]:
             as_pred = True
-        if tag == "select-recv-commaok" and obf.get(tag) == [F15_EXPECTED_WRONG]:
+        if tag == "select-recv-commaok" and obf.get(tag) == [F111_EXPECTED_WRONG]:
             as_pred = True
         witness = {"kind": "lib", "shape": tag, "as_predicted": as_pred, "config_class": config_class(kw), "how": how,
                    "symptom": "hang-or-crash" if tag not in obf else "wrong-output"}
@@ -237,8 +238,9 @@ def scripted_key_collision(ctx, chk):
 
 //garble:controlflow flatten_passes=1 flatten_hardening=xor
 func hard(n int) int {
-	s := 0
-	for i := 0; i < n; i++ {
+	println("enter", n)
+	s := n*3 + 1
+	for i := 1; i < n; i++ {
 		if i%2 == 0 {
 			s += i
 		} else {
@@ -330,7 +332,7 @@ def main(tier, seed):
     th = threading.Thread(target=run_tlc)
     th.start()
 
-    # the lead run: trash + split together is expected to break SameAsLowered (F14)
+    # the lead run: trash + split together is expected to break SameAsLowered (F110)
     rt = tlc("CtrlFlow", "CtrlFlow-trace.cfg", workdir=mkscratch("c11-tlc-trace"), timeout=600, workers=4)
     f14_lead = rt.violated == "SameAsLowered"
     if rt.error:
@@ -380,11 +382,14 @@ def main(tier, seed):
                         if sk:
                             print(f"MODEL-MISMATCH: property={PID} {sk} real go/ssa CFG skeletons differ from the spec's shapes", flush=True)
             if "lib" in progs:
-                files = add_final_panic(lib_program(lambda t: directive(**kw), with_import=wi))
+                # (the trash generator emits conversions to a type parameter that do not compile: a rejected build;
+                #  keep the generic templates out of the trash variants so that the other templates are still covered)
+                ltags = [t for t in lib_all if not (wi and t in GENERIC_TAGS)]
+                files = add_final_panic(lib_program(lambda t: directive(**kw), tags=ltags, with_import=wi))
                 r, out, st = inprocess(ctx, chk, f"lib-{pname}-{s}", files, s)
                 if st == "ok":
                     chk.case(["inprocess", "lib", pname], sample={"program": "lib", "params": kw, "seed": s, "path": "cfdrv"})
-                    judge_lib(ctx, chk, ref_lib, r, lambda t: kw, "inprocess", {"src": ctx.root / f"src-lib-{pname}-{s}", "obf": out}, lib_all)
+                    judge_lib(ctx, chk, ref_lib, r, lambda t: kw, "inprocess", {"src": ctx.root / f"src-lib-{pname}-{s}", "obf": out}, ltags)
 
     # block splitting: a split inside a phi group panics (F10, a rejected build), so splits go to a few
     # functions per program and rejected seeds are retried
@@ -407,7 +412,7 @@ def main(tier, seed):
             chk.case(["inprocess", "lib-split", pname, tuple(tags)], sample={"program": tags, "params": kw, "path": "cfdrv"})
             judge_lib(ctx, chk, ref_sub, r, lambda t: kw, "inprocess", {"src": ctx.root / f"src-libsplit-{k}", "obf": out}, tags)
 
-    # F14 lead replay: trash on the back edge + a split of the loop body (TLC's counterexample shape)
+    # F110 lead replay: trash on the back edge + a split of the loop body (TLC's counterexample shape)
     f14_seen = False
     for k in range(8 if tier == "quick" else 20):
         ids = ["while-t-y-x", "while-t-t-x"]
@@ -416,12 +421,12 @@ def main(tier, seed):
         files = shapes_program(sub, lambda i: directive(**kw), with_import=True)
         r, out, st = inprocess(ctx, chk, f"f14-{k}", files, seed * 41 + k, tries=4)
         if st == "ok":
-            chk.case(["inprocess", "f14-lead", k], sample={"program": ids, "params": kw, "path": "cfdrv"})
+            chk.case(["inprocess", "f110-lead", k], sample={"program": ids, "params": kw, "path": "cfdrv"})
             if judge_shapes(ctx, chk, leads, ref_out, r, kw, "inprocess", {"src": ctx.root / f"src-f14-{k}", "obf": out}, ids=ids):
                 f14_seen = True
                 if tier == "quick":
                     break
-    chk.extra["f14_lead_reproduced"] = f14_seen
+    chk.extra["f110_lead_reproduced"] = f14_seen
     if f14_lead and not f14_seen:
         print(f"MODEL-MISMATCH: property={PID} TLC's trash+split counterexample was not reproduced on the real code", flush=True)
 
@@ -453,7 +458,10 @@ def main(tier, seed):
                 elif prog == "shapes":
                     files = shapes_program(leads, lambda i: directive(**kw), with_import=wi)
                 else:
-                    files = add_final_panic(lib_program(lambda t: directive(**kw), with_import=wi))
+                    # a directive on a method of a generic type makes garble itself panic while re-type-checking
+                    # (nil dereference in go/types.collectRecv): a failed build, so it is kept out of the whole-tool program
+                    ltags = [t for t in lib_all if t != "generic-method" and not (wi and t in GENERIC_TAGS)]
+                    files = add_final_panic(lib_program(lambda t: directive(**kw), tags=ltags, with_import=wi))
                 name = f"tool-{prog}-{pname}-{len(flags) and flags[0][:5].strip('-=')}"
                 src = ctx.root / name
                 write_module(src, files, module=MODULE)
@@ -470,7 +478,7 @@ def main(tier, seed):
                 if prog == "shapes":
                     judge_shapes(ctx, chk, leads, ref_out, r, kw, "garble", fl, ids=None if pname != "max-passes-small" else list(sub))
                 else:
-                    judge_lib(ctx, chk, ref_lib, r, lambda t: kw, "garble", fl, lib_all)
+                    judge_lib(ctx, chk, ref_lib, r, lambda t: kw, "garble", fl, ltags)
     if ok_builds == 0:
         raise Inconclusive("no whole-tool garble build with control-flow obfuscation succeeded:\n" +
                            "\n".join(str(e) for e in ctx.compile_errors[-3:]))
